@@ -32,7 +32,13 @@ ROOT = '{ROOT}'                      # placeholder for the temporary directory i
 THEOREMS = ['BB.Props.C14.' + n for n in (
     'cwd_irrelevant', 'include_is_splice', 'include_is_splice_source', 'include_textual_splice',
     'frontEnd_include_splice', 'assemble_ignores_line_metadata', 'assemble_ignores_line_metadata_erased',
-    'include_same_result', 'path_same_as_source')]
+    'include_same_result', 'path_same_as_source')] + [
+    'BB.Props.C14.include_tree_splice',
+    'BB.Props.C14.include_tree_reads',
+    'BB.Props.C14.include_tree_same_result',
+    'BB.Props.C14.deepTree_valid',
+    'BB.Props.C14.deep_same',
+]
 
 RULE = ('seeded include trees: depth 0-4; include line first / middle / last / only line of the including file; the included '
         'file in the including file\'s directory, in a sub-directory written sub/x.asm, in a parent directory written ../x.asm, '
